@@ -94,6 +94,11 @@ where
             })
             .collect::<Vec<D>>();
         let sum = pi.iter().copied().sum::<D>();
+        if sum == D::zero() {
+            // No rank is passed on (damping factor 0 on an edgeless or complete graph):
+            // normalising would yield NaN, so the ranks are kept as they are.
+            break;
+        }
         ranks = pi.iter().map(|r| *r / sum).collect::<Vec<D>>();
     }
     ranks
